@@ -778,6 +778,10 @@ func (fc *FnCtx) ghostUpdatesAfterCall(st *State, callee string, results []Val) 
 		env.bound["result"] = results[0]
 	}
 	for _, g := range ups {
+		if g.Name == "use" {
+			fc.useLemmaEnv(st, &Clause{E: g.E, Text: g.Text}, env)
+			continue
+		}
 		lhs, err := ParseSpec(g.Name)
 		if err != nil {
 			fc.fail(token.NoPos, "aftercall: %v", err)
